@@ -183,7 +183,10 @@ class Contract:
     def __init__(self, id, target, props, inputs, call=None, requires=(), ensures=None, ensures_raise=None,
                  ensures_all=None, callees=None, loops=None, canary=None, assume=(), receiver=None,
                  covers=None, note='', kwargs=None, as_property=False, bounded=None, l0=(), native_gens=None, searchable=True,
-                 clause_props=None, signatures=None, native_setup=None):
+                 clause_props=None, signatures=None, native_setup=None, crash_invariant=None, fs_faults=False):
+        self.uses_fs = crash_invariant is not None
+        self.crash_invariant = crash_invariant or {}   # {clause name: function(inputs..., fs, fs0)} asserted after EVERY ghost-FS event
+        self.fs_faults = fs_faults
         self.signatures = signatures or {}      # {callee key: input name} declared signatures for inspect.signature
         self.native_setup = native_setup        # callable(values, patches, source, log): extra native preparation for replays
         self.clause_props = clause_props or {}  # {clause name: [property ids]}; default: every property of the contract
